@@ -561,6 +561,7 @@ def main(ctx):
     res = run_impl(ctx, cases)
     # 4. oracle on the implementation
     n_bad = 0
+    per_what = {}
     for c in cases:
         r = res[c['id']]
         ctx.count('kind:' + c['kind'])
@@ -579,6 +580,9 @@ def main(ctx):
         bad = oracle(c, r)
         for what, detail in bad[:1]:
             n_bad += 1
+            per_what[(c['kind'], what)] = per_what.get((c['kind'], what), 0) + 1
+            if per_what[(c['kind'], what)] > 3:     # same failure mode: first three inputs only
+                continue
             ctx.violation('impl-violation', public_case(c),
                           'C17 holds on this input (round trip / sorted, orthonormal, right-handed, '
                           'rebuild / involution / aligned values / caller array untouched)',
@@ -588,6 +592,7 @@ def main(ctx):
                           signature=sig_of(c, what), what=f'{c["kind"]}: {what}')
     ctx.notes['search_evaluations'] = len(cases)
     ctx.notes['impl_property_failures'] = n_bad
+    ctx.notes['impl_property_failures_by_kind'] = {f'{k}:{w}': n for (k, w), n in per_what.items()}
     # 5. correspondence
     if corr_built:
         n_items, failing, cfail = run_corr(ctx, cases, res)
